@@ -277,12 +277,15 @@ func applyDamage(b []byte, kind int, numTag string) []byte {
 					continue
 				}
 				if kind == dmgNumHuge || kind == dmgSeqHuge {
-					hi, lo := zz.Byte(), zz.Byte()
+					// 20 digits: first digit and the last two symbolic (2^64 = 18446744073709551616, so
+					// 2^64+0 .. 2^64+83 - every small value a wrapping parser could produce - is inside)
+					hi, l1, lo := zz.Byte(), zz.Byte(), zz.Byte()
 					zz.Assume(zz.And(hi >= '1', hi <= '9'))
+					zz.Assume(zz.And(l1 >= '0', l1 <= '9'))
 					zz.Assume(zz.And(lo >= '0', lo <= '9'))
 					mid = append(mid, hi)
-					mid = append(mid, "844674407370955161"...)
-					mid = append(mid, lo, 1)
+					mid = append(mid, "84467440737095516"...)
+					mid = append(mid, l1, lo, 1)
 					continue
 				}
 				x := zz.Byte()
